@@ -129,6 +129,13 @@ func (x *XNode) Line(o CanonOpts, ns string, ro bool) string {
 	if x.Type != nil {
 		fmt.Fprintf(&sb, " type=%s", TypeSig(x.Type))
 	}
+	if len(x.Exts) > 0 {
+		set := map[string]bool{}
+		for _, a := range x.Exts {
+			set[a] = true
+		}
+		fmt.Fprintf(&sb, " exts=%s", strings.Join(SortedNames(set), ","))
+	}
 	if !o.NoDesc && x.Desc != "" {
 		fmt.Fprintf(&sb, " desc=%q", x.Desc)
 	}
